@@ -813,10 +813,17 @@ impl CatalogPersistence {
     pub fn save(catalog: &Catalog, path: &Path) -> Result<()> {
         let catalog_bytes = Self::serialize(catalog).wrap_err("failed to serialize catalog")?;
 
-        let mut file = File::create(path)
-            .wrap_err_with(|| format!("failed to create catalog file at '{}'", path.display()))?;
+        // Never truncate the live catalog: write a sibling temporary file, sync it, and
+        // atomically rename it over `path`, so a crash leaves either the old or the new file.
+        let mut tmp_name = path.as_os_str().to_os_string();
+        tmp_name.push(".tmp");
+        let tmp_path = std::path::PathBuf::from(tmp_name);
+
+        let mut file = File::create(&tmp_path).wrap_err_with(|| {
+            format!("failed to create catalog file at '{}'", tmp_path.display())
+        })?;
         #[cfg(kahflane_turdb_verif)]
-        crate::verif_hooks::io_event(4, path, 0, 0);
+        crate::verif_hooks::io_event(4, &tmp_path, 0, 0);
 
         let mut header = vec![0u8; HEADER_SIZE];
 
@@ -846,17 +853,29 @@ impl CatalogPersistence {
         file.write_all(&header)
             .wrap_err("failed to write file header")?;
         #[cfg(kahflane_turdb_verif)]
-        crate::verif_hooks::io_event(8, path, 0, HEADER_SIZE as u64);
+        crate::verif_hooks::io_event(8, &tmp_path, 0, HEADER_SIZE as u64);
 
         file.write_all(&catalog_bytes)
             .wrap_err("failed to write catalog data")?;
         #[cfg(kahflane_turdb_verif)]
-        crate::verif_hooks::io_event(8, path, HEADER_SIZE as u64, catalog_length);
+        crate::verif_hooks::io_event(8, &tmp_path, HEADER_SIZE as u64, catalog_length);
 
         file.sync_all()
             .wrap_err("failed to sync catalog file to disk")?;
         #[cfg(kahflane_turdb_verif)]
-        crate::verif_hooks::io_event(2, path, 0, 0);
+        crate::verif_hooks::io_event(2, &tmp_path, 0, 0);
+        drop(file);
+
+        std::fs::rename(&tmp_path, path).wrap_err_with(|| {
+            format!("failed to move catalog file into place at '{}'", path.display())
+        })?;
+
+        // Make the rename itself durable (best effort: a directory cannot be opened everywhere).
+        if let Some(dir) = path.parent() {
+            if let Ok(dir_file) = File::open(dir) {
+                let _ = dir_file.sync_all();
+            }
+        }
 
         Ok(())
     }
